@@ -4,6 +4,7 @@ package main
 
 import (
 	"fmt"
+	"go/types"
 	"strings"
 
 	"golang.org/x/tools/go/ssa"
@@ -246,4 +247,42 @@ func ruleEdgeCacheVisited(e *Engine, r *Reporter) {
 		pos = e.instrPos(bad)
 	}
 	r.Check(ok, "internal/check.(*Resolver).ResolveEdge raw visited", pos, "callees receive the visited map only through the usesVisited-guarded variable", "a callee receives the request's visited map although usesVisited(edge, visited) is false for this edge: the de-duplication filter then prunes usersets for a result that the caching guard believes to be filter-independent")
+}
+
+// ruleRequestConstructedByConstructor: request structs whose cache identity lives in unexported
+// fields may be built as composite literals only inside their own package (constructor/clone).
+func ruleRequestConstructedByConstructor(e *Engine, r *Reporter) {
+	r.Rule("request-built-by-constructor", "graph.ResolveCheckRequest and check.Request carry their cache identity (invariantCacheKey, cacheKey) in unexported fields that only NewResolveCheckRequest / NewRequest / clone compute: outside their package they are never built as composite literals", 1)
+	targets := map[string]string{"ResolveCheckRequest": "internal/graph", "Request": "internal/check"}
+	n := 0
+	for _, p := range e.modulePackages(false) {
+		for _, f := range p.Syntax {
+			counts := map[string]int{}
+			astInspectLits(f, func(lit *astCompositeLit) {
+				t := p.TypesInfo.TypeOf(lit.node)
+				if t == nil {
+					return
+				}
+				nt, ok := derefType(t).(*types.Named)
+				if !ok || nt.Obj().Pkg() == nil {
+					return
+				}
+				home, isT := targets[nt.Obj().Name()]
+				if !isT || short(nt.Obj().Pkg().Path()) != home {
+					return
+				}
+				n++
+				fd := funcDeclName(e.enclosingFuncDecl(p, lit.node.Pos()))
+				k := fd + "|" + nt.Obj().Name()
+				ord := counts[k]
+				counts[k]++
+				key := fmt.Sprintf("%s.%s | %s{…} #%d", short(p.PkgPath), fd, nt.Obj().Name(), ord)
+				inside := short(p.PkgPath) == home
+				r.Check(inside, key, e.pos(lit.node.Pos()), "built inside its own package", "a "+nt.Obj().Name()+" is built as a literal outside "+home+": its invariant cache key stays zero, so with the query cache on its sub-problems are cached under a key that ignores context, contextual tuples and model (answers leak between requests)")
+			})
+		}
+	}
+	if n == 0 {
+		blind("request-built-by-constructor: no literal of the request types found at all")
+	}
 }
